@@ -51,6 +51,14 @@ R4  6 (patch-size constants, marker table, integer expressions folded over modul
     dominating the report as a half-line of the scan variable: linear inequality -> bound, compared with the first
     admissible offset; the scan variable's updates as "+1" in polynomial form - the loop body is looked at once).
     Lemmas: [xor-len], [xor-keys-commute], [reversal], [linear-bound].
+    Chunked scan (the two halves are bound by `for .., a, b in G(fh, ..)`, G a generator of the module that yields slices of
+    bulk-read chunks): 1 (resolved callee, its single yield, stream operations on its file parameter), 3 (terms of the
+    yielded elements built in G with G's parameters bound to the call's arguments; slice bounds and the yielded offset as
+    polynomials over the chunk start BASE and the position P - the chunk loop body is looked at once), 4 (interval on P:
+    for a full chunk of N bytes P runs to Efull - 1, the chunk start advances by S; offsets with P < min(Efull, S) are
+    visited in this chunk only, so c0 + min(Efull, S) - 1 + 2 * marker length <= N is required - "window inside the block
+    read" - and Efull >= S - "every offset tested"), 6 (N, S, range arguments folded).  Lemmas: [slice-truncation],
+    [full-chunk].  An inline chunked scan (no generator) is not modelled.
 R5  1 (the variable bound to grouper's `n`, reads of the candidate stream, most_common calls), 3 (that variable followed to
     the for loop that binds it; the checksum's per-byte term with the accumulator symbolic - the loop body / generator
     element is analysed once - in polynomial normal form over the atoms BYTE and IMOD<k>), 6 (range arguments, read sizes,
@@ -62,6 +70,16 @@ R6  engine: effects.check_escape (1, 2, 4: escape analysis with interval facts, 
     loops.analyse_loop (2: every cycle of the loop passes a progress statement).  One length fact is added to the escape
     analysis (6): a module-level container constant that the function neither takes as parameter nor assigns has the length
     of its folded value (the engine itself reads literal tables and unfiltered comprehensions over them only).
+
+R7  'raw or XorEncoded' in the Guardrails fallback of BeaconConfig.from_file: 1 (the call of the guardrails iterator, its
+    stream argument through bind_args, calls resolved to xordecode.XorEncodedFile / .from_file = decoding attempts; the
+    enclosing `try` stands for an attempt because the exceptional edge leaves from before the call), 3 (the stream
+    argument followed flow-sensitively through reaching definitions to its leaves: the file parameter (raw) or an
+    attempt's result (decoded)), 2 (no path entry -> <raw leaf becomes the stream> -> scan that avoids every attempt, on
+    the CFG with the branch edges removed that are infeasible by flag propagation: a name in a test whose reaching
+    definitions at that test are all constants of one truthiness; three-valued evaluation of the test).  Violated when the
+    raw file object reaches the scan without a feasible attempt, or the attempt is skipped on a test that does not look at
+    the payload (no call in the inlined test); a test with a call that selects the attempt -> undecided.
 
 Constant tables (device 6, class _ModEnv; used by R3, R4, R5, R6 wherever a module constant is read)
     A module-level constant is folded from the module-level statements that bind it, in statement order (an expression of
@@ -97,6 +115,10 @@ Lemmas (each used as a rewrite on terms, never checked by trying values)
                      decreased is >= c0 + j at e after j parses; if `count <= B` holds on e and e lies between any two parses,
                      parse j+1 requires c0 + j <= B.  `count != K` (K >= c0 an integer) equals `count < K` when at most one
                      increment lies between two passes of e (the count cannot step over K).
+[slice-truncation]   X[lo:hi] of a bytes-like X with hi > len(X) has fewer than hi - lo bytes (Python slicing never raises); xor of a
+                     marker-long half with a shorter one is not a member of the table of marker-long strings.
+[full-chunk]         stream.read(N) returns fewer than N bytes only at the end of the data; for every chunk that is followed by more
+                     data len(chunk) == N, so expressions over len(chunk) are evaluated with that value (min / max / + / - folded).
 [default-buffer-size] io.DEFAULT_BUFFER_SIZE == 8192 (CPython constant; named assumption).
 [append-is-concat]   for a list X: after `X.append(E)` X equals old X + [E]; after `X.extend(E)` / `X += E` it equals old X + [*E]
                      (bytes: X + E).  Only used for module-level statements; aliases are not followed (a second name for
@@ -650,11 +672,16 @@ def run(ctx):
         "length) from C_GUARDRAILS_DEF; nothing limits the settings parsed per guard configuration below one per GuardOption "
         "member (interval on the list length / counter tested between two parses); geometry of the scan (window, offsets, bulk reads as numbers / polynomials over the scan "
         "variable) and the unmasking expressions as xor chains; key-length range and checksum formula as a polynomial; "
-        "escape set and loop termination of the scan."
+        "escape set and loop termination of the scan.  When the marker windows are cut out of bulk-read chunks by a generator of the module: "
+        "every window of an offset that is visited in one chunk only lies inside the bytes read for that chunk (look-ahead >= 2 * marker length - 1), and the "
+        "positions tested per chunk cover the stride.  Raw or XorEncoded: the raw file object becomes the stream of the guardrails fallback in from_file only "
+        "after a feasible attempt to open its XorEncodedFile view (CFG paths after flag propagation)."
     )
     rep.not_decided = ["that recovery succeeds for every key/option combination (n-gram statistics)", "checksum collisions",
                        "limits on the number of parsed settings that are not a linear bound on a list length / counter (undecided when one lies between two parses)",
                        "exhaustiveness of a search whose constructed candidate is a result variable rather than the drawn name (undecided)",
+                       "a chunked marker scan written inline (not as a generator helper), or whose chunk size / stride / positions are not constants: window obligations undecided; termination of a generator helper's loop",
+                       "a decoding attempt in from_file that is selected by a predicate on the payload (a call in the test): undecided; that XorEncodedFile itself decodes correctly (C01)",
                        "a marker table that is not a foldable module-level constant (serialised by package helpers, bound in nested blocks, mutated through methods other than append/extend): table / marker-length obligations undecided"]
     rep.trusted_base = [
         "CPython ast", "networkx dominators", "C-definition parser", "escape-analysis trusted base (C08)",
@@ -669,6 +696,8 @@ def run(ctx):
         "lemma: a never-decreased count incremented after every parse is >= c0 + j after j parses; `count <= B` between two parses admits B - c0 + 1 parses",
         "semantics of next(IT, None) / filtering comprehension / filter(lambda): first element of IT satisfying the filter, None when exhausted",
         "assumption: io.DEFAULT_BUFFER_SIZE == 8192",
+        "lemma: a slice beyond the end of a bytes object is truncated, and read(N) is short only at the end of the data (chunk length == N whenever more data follows)",
+        "flag propagation: a branch edge is infeasible when every definition of the tested name that reaches the test is a constant of the other truthiness; the exceptional edge of a try body leaves from before the raising statement",
         "constant folding of module-level tables (_ModEnv): CPython's struct.pack / int.to_bytes / bytes / join / range on constants of the analysed code; dissect.cstruct enum members behave as their integer value (IntEnum-like: .value, .name, E[name], E(value), iteration in definition order without aliases)",
         "lemma: module-level X.append(E) / X.extend(E) / X += E / `for T in S: X.append(E)` equal the rebinding X = X + [E] / X + [*E] / X + [E for T in S]; module-level tables are not mutated from function bodies",
     ]
@@ -680,6 +709,7 @@ def run(ctx):
     r4(ctx, mod, env)
     r5(ctx)
     r6(ctx)
+    r7(ctx)
 
 
 # ====================================================================================================== generic helpers
@@ -1469,6 +1499,155 @@ def _r2_exhaustive(ctx, f, g, draw, build_stmts):
            "(a recoverable protected area behind a metadata-only candidate is lost): " + " -> ".join(cfg.witness_path(start, leaks[0], avoiding=via)[:8]), draw.stmt)
 
 
+# ================================================================================================================== R7
+def _flag_pruned(ctx, f):
+    """Copy of the CFG of `f` without the branch edges that are infeasible by flag propagation: a name in a test whose
+    definitions *reaching that test* are all constants of one truthiness is assumed to have it (three-valued evaluation of
+    the test under these named assumptions; per test, because a flag has different reaching definitions at different sites)."""
+    from csverif.q import reaching_defs, tv_eval
+
+    cfg = ctx.cfg(f)
+    c = copy.copy(cfg)
+    c.g = cfg.g.copy()
+    c._idom = None
+    c._ipdom = None
+    used = []
+    for n, st in cfg.stmt.items():
+        if not isinstance(st, (ast.If, ast.While)):
+            continue
+        assume = {}
+        for nm in {x.id for x in ast.walk(st.test) if isinstance(x, ast.Name)}:
+            if nm in params(f.node):
+                continue
+            rd = reaching_defs(ctx, f, nm, st)
+            vals = set()
+            for _d, v in rd:
+                try:
+                    vals.add(bool(const_eval(v, None)) if v is not None else None)
+                except (NotConst, TypeError, KeyError):
+                    vals.add(None)
+            if rd and len(vals) == 1 and None not in vals:
+                assume[nm] = vals.pop()
+        if not assume:
+            continue
+        v = tv_eval(st.test, assume)
+        if v is None:
+            continue
+        dead = cfg.edge_node(st, "false" if v else "true")
+        if c.g.has_edge(n, dead):
+            c.g.remove_edge(n, dead)
+            used.append(f"`{src(st.test)}` is always {v} here ({', '.join(f'{k} == {b}' for k, b in sorted(assume.items()))} on every path reaching it)")
+    return c, used
+
+
+def _stream_leaves(ctx, f, e, at, depth=0):
+    """[(statement, expression)]: the defining expressions that may flow into `e` evaluated at statement `at` (copies followed
+    flow-sensitively through reaching definitions), each with the statement that defines it (`at` for a direct use)."""
+    from csverif.q import reaching_defs
+
+    e = strip_cast(e)
+    if depth <= 6 and isinstance(e, ast.Name) and e.id not in params(f.node):
+        rd = reaching_defs(ctx, f, e.id, at)
+        if rd and all(v is not None and isinstance(d, ast.stmt) for d, v in rd):
+            out = []
+            for d, v in rd:
+                out.extend(_stream_leaves(ctx, f, v, d, depth + 1))
+            return out
+    return [(at, e)]
+
+
+def r7(ctx):
+    """'raw or XorEncoded': the stream the Guardrails fallback of from_file scans.  A protected payload delivered XorEncoded
+    carries marker, guard configuration and masked configuration behind the XorEncode layer, so the raw file object may be
+    handed to the validating iterator only after decoding it was attempted (and refused): on every feasible path from the
+    function entry over a point where the raw file becomes the scanned stream to the scan lies an attempt
+    XorEncodedFile.from_file(<file>) (the `try` statement that contains it - the exceptional edge leaves from before the call).  Infeasible branch edges are
+    pruned by flag propagation (_flag_pruned) first."""
+    f = ctx.repo.func("beacon.BeaconConfig.from_file")
+    cfg = ctx.cfg(f)
+    fv = FuncView.of(f.node)
+    _prep(ctx, f)
+    text = "guardrails fallback scans the XorDecoded stream when there is one"
+    draws = [c for c in fn_calls(f.node) if (_fq(ctx, f, c) or "") in ("guardrails.iter_guardrail_configs_with_beacon", "guardrails.iter_guardrail_configs")]
+    if not draws:
+        ctx.undecided("R7", "DOM", f, text, "no call of a guardrails iterator found in from_file: the stream it scans cannot be located")
+        return
+
+    def is_decode(c):
+        if not isinstance(c, ast.Call):
+            return False
+        cal = ctx.rs.resolve_call(f, c)
+        fq = (cal.func.fq if cal.kind == "func" and cal.func is not None else cal.fq) or ""
+        return fq.startswith("xordecode.XorEncodedFile")
+
+    # the attempts: statements that call the decoder; inside a `try` the try statement stands for the attempt
+    attempts = {}
+    for c in fn_calls(f.node):
+        if not is_decode(c):
+            continue
+        st = fv.stmt_of(c)
+        tr = [a for a in fv.ancestors(c) if isinstance(a, ast.Try) and any(c in list(ast.walk(b)) for b in a.body)]
+        for s in ([st] if st is not None else []) + tr:
+            if cfg.has(s):
+                attempts[cfg.node(s)] = s
+    pruned, used = _flag_pruned(ctx, f)
+    for call in draws:
+        b = _bound(ctx, f, call) or {}
+        s_arg = next(iter(b.values()), None)
+        dst = fv.stmt_of(call)
+        if s_arg is None or dst is None or not cfg.has(dst):
+            ctx.undecided("R7", "DOM", f, text, "the stream argument of the guardrails iterator cannot be located", call)
+            continue
+        leaves = _stream_leaves(ctx, f, s_arg, dst)
+        raw = [(st, e) for st, e in leaves if isinstance(e, ast.Name) and e.id in params(f.node)]
+        dec = [(st, e) for st, e in leaves if is_decode(e)]
+        other = [(st, e) for st, e in leaves if (st, e) not in raw and (st, e) not in dec]
+        if other:
+            ctx.undecided("R7", "DOM", f, text, f"the scanned stream may be `{src(other[0][1])[:60]}`: neither the file parameter nor its XorEncodedFile view", call)
+            continue
+        if raw and not dec:
+            ctx.ob("R7", "DOM", f, text, False, f"the scanned stream is always the raw file object `{src(raw[0][1])}`: no XorEncodedFile view of it ever reaches the guardrails scan; "
+                   "a Guardrails-protected payload delivered XorEncoded is scanned in its encoded form and never found", call)
+            continue
+        D = cfg.node(dst)
+        bad = None
+        for st, e in raw:
+            if not cfg.has(st):
+                continue
+            n = cfg.node(st)
+            if n in attempts:
+                continue
+            if pruned.reaches(ENTRY, n, avoiding=list(attempts)) and (n == D or pruned.reaches(n, D, avoiding=list(attempts))):
+                bad = (st, e, n)
+                break
+        if bad is None:
+            ctx.ob("R7", "DOM", f, text, True, (f"the raw file object becomes the scanned stream only after an attempt to open its XorEncodedFile view ({len(attempts)} attempt statement(s))" if raw else
+                                                 "the scanned stream is always the XorEncodedFile view") + (f"; pruned: {used}" if used else ""), call)
+            continue
+        st, e, n = bad
+        # branches that decide between an attempt and the bypass
+        feasible = [a for a in attempts if pruned.reaches(ENTRY, a) and pruned.reaches(a, cfg.node(dst))]
+        deciding = []
+        for bn, bs in cfg.stmt.items():
+            if not isinstance(bs, (ast.If, ast.While)) or not pruned.reaches(ENTRY, bn, avoiding=list(attempts)):
+                continue
+            edges = [cfg.edge_node(bs, lab) for lab in ("true", "false")]
+            edges = [x for x in edges if pruned.g.has_edge(bn, x)]
+            to_att = [any(x == a or pruned.reaches(x, a, avoiding=[y for y in edges if y != x]) for a in feasible) for x in edges]
+            to_raw = [pruned.reaches(x, D, avoiding=list(attempts)) for x in edges]
+            if len(edges) == 2 and any(ta and not tr for ta, tr in zip(to_att, to_raw)) and any(tr for tr in to_raw):
+                deciding.append(bs)
+        opaque = [bs for bs in deciding if any(isinstance(x, ast.Call) for x in ast.walk(_inl(f, bs.test)))]
+        path = " -> ".join((pruned.witness_path(ENTRY, n, avoiding=list(attempts)) + (pruned.witness_path(n, D, avoiding=list(attempts))[1:] if n != D else []))[:10])
+        if feasible and opaque:
+            ctx.undecided("R7", "DOM", f, text, f"the decoding attempt is selected by `{src(opaque[0].test)[:60]}`, which the rule cannot relate to 'the payload is XorEncoded'", opaque[0])
+            continue
+        ctx.ob("R7", "DOM", f, text, False,
+               f"the raw file object `{src(e)}` is handed to the guardrails scan without an attempt to decode it: "
+               + ("no XorEncodedFile attempt is feasible before the fallback" if not feasible else f"the attempt is skipped depending on {[src(bs.test)[:40] for bs in deciding]}, which does not look at the payload")
+               + (f" ({'; '.join(used)})" if used else "") + f"; a Guardrails-protected payload delivered XorEncoded is scanned in its encoded form and never found: {path}", st)
+
+
 # ================================================================================================================== R3
 def _leaf_defs(fn, e, depth=0, at=None):
     """(stmt|None, expr) leaves a local may come from: copies and multiple definitions are followed."""
@@ -1809,9 +1988,19 @@ def r4(ctx, mod, env):
             second = b.slice.step is None and (hi_b is None or num._iv(hi_b) == 2 * (s_b or 0))
             S1 = s_a
             shape = nrev == 1 and first and second and s_a is not None and s_a == s_b
+    gen_scan = False
     if W is None:
-        ctx.undecided("R4", "AGREE", f, "marker test", f"`{src(mt)}`: the tested value is not built from two slices of one block read from the file")
-        return
+        # the windows may be delivered by a package generator that cuts them out of bulk-read chunks
+        OFF = _r4_generator_windows(ctx, f, env, num, mt, halves, key, nkey, allkeys, mlen, fh, mst)
+        if OFF is False:
+            ctx.undecided("R4", "AGREE", f, "marker test", f"`{src(mt)}`: the tested value is not built from two slices of one block read from the file")
+            return
+        gen_scan = True
+    if gen_scan:
+        if OFF is None:
+            ctx.undecided("R4", "CURSOR", f, "read sequence", "the stream offset of the tested window is not bound to a name in the scan: the reported offsets cannot be compared")
+            return
+        return _r4_report(ctx, f, env, num, mlen, key, ops, readvars, stop, hit_edge, OFF, None, None)
     ok = shape and S1 == mlen and nkey == 1 and len(allkeys) + 1 - nkey == 2
     ctx.ob("R4", "AGREE", f, "marker test", bool(ok),
            (f"marker = reversed first half XOR second half of a 2*{mlen} window, compared with the marker table under the single-byte key" if ok else
@@ -1828,7 +2017,14 @@ def r4(ctx, mod, env):
         return
     wseek = prev[0]
     ctx.ob("R4", "CURSOR", f, "window", wsize == 2 * mlen, f"after seek({OFF}) a window of {wsize} bytes is read (required 2 * marker length = {2 * mlen})", wread)
+    _r4_report(ctx, f, env, num, mlen, key, ops, readvars, stop, hit_edge, OFF, wread, wseek)
 
+
+def _r4_report(ctx, f, env, num, mlen, key, ops, readvars, stop, hit_edge, OFF, wread, wseek):
+    """What is reported for a hit at stream offset `OFF` (a local name of the scan), and - for the scan that seeks and reads
+    one window per offset (`wread` / `wseek` given) - that the scan visits every offset."""
+    cfg = ctx.cfg(f)
+    fv = FuncView.of(f.node)
     # ---- what is reported for a hit
     ctors = _ctor_calls(ctx, f, "guardrails.GuardrailMetadata")
     args = _ctor_args(ctx, ctors[0], "guardrails.GuardrailMetadata") if len(ctors) == 1 else None
@@ -1915,6 +2111,8 @@ def r4(ctx, mod, env):
            f"conditions on the scan variable that dominate the report exclude only offsets below {BEACON_AREA - mlen} (no room for the beacon area)", ctor_st)
 
     # ---- the scan visits every offset
+    if wread is None:
+        return  # windows delivered by a generator: decided there (_r4_generator_windows)
     loop = fv.enclosing(wread, (ast.While, ast.For))
     if not isinstance(loop, ast.While):
         ctx.undecided("R4", "LOOP", f, "every offset tested", "the scan is not a while loop over a position variable")
@@ -1947,6 +2145,202 @@ def r4(ctx, mod, env):
            "the scan starts at 0 and advances exactly one byte on every cycle (termination: R6)" if ok else
            f"scan variable: initial values {init} (required [0]); other updates {[src(s) for s in wrong]}; a cycle without increment={bool(none)}; two increments in one cycle={bool(twice)}; "
            f"changed between the window seek and the report={bool(moved)}", loop)
+
+
+def _unwrap_bytes(e):
+    """X for bytes(X) / bytearray(X) / memoryview(X) (views and copies of the same bytes)"""
+    while isinstance(e, ast.Call) and dotted(e.func) in ("bytes", "bytearray", "memoryview") and len(e.args) == 1 and not e.keywords:
+        e = e.args[0]
+    return e
+
+
+def _r4_generator_windows(ctx, f, env, num, mt, halves, key, nkey, allkeys, mlen, fh, mst):
+    """The two halves of the tested window are bound by `for .., a, b in G(fh, ..)` where G is a generator of the package
+    that reads the stream in chunks and yields slices of a chunk.  Terms of the yielded elements are built in G with G's
+    parameters bound to the call's arguments (device 3); the chunk loop body is looked at once, with the chunk start BASE
+    and the position P in the chunk symbolic.
+
+    Window geometry (device 4, intervals on P): a chunk of N bytes is read at BASE, P runs over range(0, E) and BASE advances
+    by S per chunk.  For a *full* chunk (len(chunk) == N: the file may go on) E has the value Efull (len(chunk) -> N, min /
+    max / + / - folded).  The offsets BASE + P with P < min(Efull, S) are visited in this chunk only, so each of their
+    windows [P + c0, P + c0 + 2 * mlen) must lie inside the N bytes read:  c0 + min(Efull, S) - 1 + 2 * mlen <= N
+    (a slice beyond the end of a bytes object is silently truncated, the marker relation then cannot hold).  No offset is
+    skipped between two chunks iff Efull >= S.
+
+    Returns False: not this shape (nothing recorded); else the name bound to the stream offset of the window in `f` (None if
+    it cannot be located) after recording the obligations."""
+    fvf = FuncView.of(f.node)
+    if len(halves) != 2 or key is None:
+        return False
+    hs = []
+    for h in halves:
+        r = _reversed_of(h)
+        x = _unwrap_bytes(r if r is not None else h)
+        if not isinstance(x, ast.Name) or len(assignments_to(f.node, x.id)) != 1:
+            return False
+        hs.append((x.id, r is not None))
+    lps = [st for st, _v in assignments_to(f.node, hs[0][0]) if isinstance(st, ast.For)]
+    if len(lps) != 1 or not isinstance(lps[0].target, ast.Tuple) or not all(isinstance(t, ast.Name) for t in lps[0].target.elts):
+        return False
+    lp = lps[0]
+    tnames = [t.id for t in lp.target.elts]
+    if hs[1][0] not in tnames or hs[0][0] == hs[1][0]:
+        return False
+    call = origin(f.node, lp.iter)
+    cal = ctx.rs.resolve_call(f, call) if isinstance(call, ast.Call) else None
+    if cal is None or cal.kind != "func" or cal.func is None or cal.func.module is not f.module:
+        return False
+    G = cal.func
+    from csverif.astutil import body_walk
+
+    ys = [n for n in body_walk(G.node) if isinstance(n, (ast.Yield, ast.YieldFrom))]
+    if len(ys) != 1 or not isinstance(ys[0], ast.Yield) or not isinstance(ys[0].value, ast.Tuple) or len(ys[0].value.elts) != len(tnames) \
+            or any(isinstance(x, ast.Starred) for x in ys[0].value.elts):
+        return False
+    b = _bound(ctx, f, call) or {}
+    pconsts, gfh = {}, None
+    for p, a in b.items():
+        if a is None:
+            continue
+        v = num.val(a)
+        if v is not None:
+            pconsts[p] = ast.Constant(value=v)
+        elif _isrc(f, a) == fh:
+            gfh = p
+    if gfh is None:
+        return False
+    _prep(ctx, G)
+    gnum = _Num(ctx, G, env, consts=pconsts)
+    gcfg, gfv = ctx.cfg(G), FuncView.of(G.node)
+    gops = [c for c in fn_calls(G.node) if isinstance(c.func, ast.Attribute) and c.func.attr in ("seek", "read") and dotted(c.func.value) == gfh]
+    greads = {}
+    for c in gops:
+        st = gfv.stmt_of(c)
+        if c.func.attr == "read" and isinstance(st, (ast.Assign, ast.AnnAssign)) and st.value is c:
+            tg = st.targets[0] if isinstance(st, ast.Assign) else st.target
+            if isinstance(tg, ast.Name) and len(assignments_to(G.node, tg.id)) == 1:
+                greads[tg.id] = c
+    gstop = set(greads)
+    parts = []
+    for name, rev in hs:
+        e = _unwrap_bytes(_inl(G, ys[0].value.elts[tnames.index(name)], gstop))
+        if not (isinstance(e, ast.Subscript) and isinstance(e.slice, ast.Slice) and e.slice.step is None):
+            return False
+        blk = _unwrap_bytes(e.value)
+        if not (isinstance(blk, ast.Name) and blk.id in greads):
+            return False
+        lo = gnum.poly(e.slice.lower, gstop) if e.slice.lower is not None else SymPoly.const(0)
+        hi = gnum.poly(e.slice.upper, gstop) if e.slice.upper is not None else None
+        if lo is None or (e.slice.upper is not None and hi is None):
+            return False
+        parts.append((blk.id, rev, lo, hi))
+    if parts[0][0] != parts[1][0]:
+        return False
+    # ---- located: from here on obligations are recorded
+    blk = parts[0][0]
+    nrev = sum(1 for p in parts if p[1])
+    parts.sort(key=lambda p: not p[1])
+    (_b1, _r1, lo_a, hi_a), (_b2, _r2, lo_b, hi_b) = parts
+    ML = SymPoly.const(mlen)
+    shape = nrev == 1 and hi_a is not None and hi_b is not None and hi_a - lo_a == ML and lo_b == hi_a and hi_b - lo_b == ML
+    ok = shape and nkey == 1 and len(allkeys) + 1 - nkey == 2
+    ctx.ob("R4", "AGREE", f, "marker test", bool(ok),
+           (f"marker = reversed first half XOR second half of a 2*{mlen} window cut out of a chunk by {G.fq}, compared with the marker table under the single-byte key" if ok else
+            f"marker test `{src(mt)}` on windows [{lo_a}:{hi_a}] / [{lo_b}:{hi_b}] of a chunk read by {G.fq} (marker length {mlen}): first half reversed and second half adjacent, "
+            f"each one marker long={bool(shape)}, key `{key}` applied {nkey} time(s) (required once)"), mst)
+    ctx.ob("R4", "AGREE", f, "marker length", hi_a is not None and hi_a - lo_a == ML, f"the first window is [{lo_a}:{hi_a}]; marker length = {mlen}", mst)
+    # the offset delivered with the windows
+    T_IN, T_ALL = "window inside the block read", "every offset tested"
+    rd = greads[blk]
+    N = gnum.val(rd.args[0], gstop) if rd.args else None
+    atoms = sorted(lo_a.atoms())
+    P = atoms[0] if len(atoms) == 1 else None
+    lin = _linear(lo_a, P) if P is not None else None
+    pdefs = assignments_to(G.node, P) if P is not None and P.isidentifier() else []
+    ploop = pdefs[0][0] if len(pdefs) == 1 and isinstance(pdefs[0][0], ast.For) and isinstance(pdefs[0][0].target, ast.Name) else None
+    prev = _last_ops(ctx, G, gops, rd)
+    BASE = prev[0].args[0].id if prev is not None and len(prev) == 1 and prev[0] is not None and prev[0].func.attr == "seek" and len(prev[0].args) == 1 \
+        and isinstance(prev[0].args[0], ast.Name) else None
+    wl = gfv.enclosing(rd, (ast.While,))
+    if N is None or lin is None or lin[0] != 1 or ploop is None or BASE is None or wl is None or not shape:
+        why = ("the window shape is wrong (see marker test)" if not shape else
+               f"chunk size {N}, window start `{lo_a}`, position loop {'found' if ploop is not None else 'not found'}, chunk start {'`' + BASE + '`' if BASE else 'not a single seek(<name>) before the read'}")
+        ctx.undecided("R4", "ABS", G, T_IN, f"the chunked scan cannot be located: {why}", rd)
+        ctx.undecided("R4", "LOOP", G, T_ALL, f"the chunked scan cannot be located: {why}", rd)
+    else:
+        c0 = int(lin[1])
+
+        def full(e):
+            """value of an integer expression of G when the chunk is full (len(<chunk>) == N)"""
+            v = gnum._iv(e)
+            if v is not None:
+                return v
+            if isinstance(e, ast.Call) and dotted(e.func) == "len" and len(e.args) == 1:
+                x = _unwrap_bytes(e.args[0])
+                return N if isinstance(x, ast.Name) and x.id == blk else None
+            if isinstance(e, ast.Call) and dotted(e.func) in ("min", "max") and len(e.args) >= 2 and not e.keywords:
+                vs = [full(a) for a in e.args]
+                return None if any(v is None for v in vs) else (min if dotted(e.func) == "min" else max)(vs)
+            if isinstance(e, ast.BinOp) and isinstance(e.op, (ast.Add, ast.Sub)):
+                l, r = full(e.left), full(e.right)
+                return None if l is None or r is None else (l + r if isinstance(e.op, ast.Add) else l - r)
+            return None
+
+        it = _inl(G, ploop.iter, gstop)
+        rng = None
+        if isinstance(it, ast.Call) and dotted(it.func) == "range" and 1 <= len(it.args) <= 3 and not it.keywords:
+            a = it.args
+            start = 0 if len(a) == 1 else gnum._iv(a[0])
+            step = 1 if len(a) < 3 else gnum._iv(a[2])
+            rng = (start, full(a[0] if len(a) == 1 else a[1]), step)
+        # the chunk start: starts at 0, advanced by a constant once per chunk
+        inner = {id(n) for n in ast.walk(wl)}
+        incs, wrong, init = [], [], []
+        for st, v in assignments_to(G.node, BASE):
+            s2 = st if isinstance(st, ast.stmt) else gfv.stmt_of(st)
+            if id(s2) not in inner:
+                init.append(gnum.val(v) if v is not None else None)
+            elif isinstance(s2, ast.AugAssign) and isinstance(s2.op, ast.Add) and gnum.val(s2.value) is not None:
+                incs.append((s2, gnum.val(s2.value)))
+            elif isinstance(s2, (ast.Assign, ast.AnnAssign)) and v is not None and gnum.poly(v) is not None and _linear(gnum.poly(v), BASE) is not None \
+                    and _linear(gnum.poly(v), BASE)[0] == 1:
+                incs.append((s2, int(_linear(gnum.poly(v), BASE)[1])))
+            else:
+                wrong.append(s2)
+        H = gcfg.node(wl)
+        inodes = [gcfg.node(s2) for s2, _k in incs]
+        none = gcfg.reaches(gcfg.edge_node(wl, "true"), H, avoiding=inodes)
+        twice = any(gcfg.reaches(n, m, avoiding=[H]) for n in inodes for m in inodes)
+        strides = {k for _s, k in incs}
+        if rng is None or rng[1] is None or rng[0] is None or rng[2] is None or wrong or len(strides) != 1 or none or twice or min(strides) <= 0:
+            why = f"positions `{src(ploop.iter)}`, updates of the chunk start {[src(s2) for s2, _k in incs] + [src(s2) for s2 in wrong]} (a cycle without update={bool(none)}, two updates={bool(twice)})"
+            ctx.undecided("R4", "ABS", G, T_IN, f"the positions / the stride of the chunked scan are not constants the rule can read: {why}", rd)
+            ctx.undecided("R4", "LOOP", G, T_ALL, f"the positions / the stride of the chunked scan are not constants the rule can read: {why}", rd)
+        else:
+            S = strides.pop()
+            E = rng[1]
+            last_own = min(E, S) - 1  # the last position whose offset is visited in this chunk only
+            need = c0 + last_own + 2 * mlen
+            ok_in = need <= N
+            ctx.ob("R4", "ABS", G, T_IN, ok_in,
+                   f"a chunk of {N} bytes is read per {S} offsets, positions 0..{E - 1} of a full chunk are tested; the window of position {last_own} ends at byte {need} "
+                   + ("<= chunk length: every window is complete" if ok_in else
+                      f"> chunk length {N}: the windows of the last {min(need - N, last_own + 1)} offsets of every chunk are truncated (look-ahead {N - S} bytes, required 2 * marker length - 1 = {2 * mlen - 1}), "
+                      "a guard configuration whose marker starts there is never found although the payload continues"), rd)
+            ok_all = init == [0] and rng[0] == 0 and rng[2] == 1 and c0 == 0 and E >= S
+            ctx.ob("R4", "LOOP", G, T_ALL, ok_all,
+                   (f"chunks start at 0 and advance by {S}; positions 0..{E - 1} >= stride: every offset is delivered (termination: end of data)" if ok_all else
+                    f"chunk start: initial {init} (required [0]), stride {S}; positions range({rng[0]}, {E}, {rng[2]}) of a full chunk, window start `{lo_a}`: offsets are skipped"), wl)
+    # ---- the name bound to the stream offset of the window in the scan
+    if BASE is None:
+        return None
+    for i, t in enumerate(tnames):
+        if t in (hs[0][0], hs[1][0]):
+            continue
+        po = gnum.poly(ys[0].value.elts[i], gstop)
+        if po is not None and po == SymPoly.atom(BASE) + lo_a and len(assignments_to(f.node, t)) == 1:
+            return t
+    return None
 
 
 # ================================================================================================================== R5
